@@ -443,6 +443,9 @@ func (c *Check) newBatchRules(prefix string, want map[string]bool) {
 				add("skip-with-charge", "a skipped batch charges or issues", n.pa)
 			}
 		}
+		if n.expiryQueued && !n.issue && !skipOpened(n) {
+			add("expiry-without-batch", "a batch expiry is queued on a path that opened no batch (neither issued nor skipped)", n.pa)
+		}
 		if n.opened > 1 {
 			add("skip-with-charge", "two batches are opened on one path (one skipped, one issued)", n.pa)
 		}
@@ -461,6 +464,7 @@ func (c *Check) newBatchRules(prefix string, want map[string]bool) {
 		{"issue-without-expiry", "expiry", "issuing queues the batch expiry on the same path"},
 		{"skip-with-charge", "skip", "a skipped batch neither charges nor issues"},
 		{"running-no-successor", "successor", "every RUNNING path ends with an expiry queued (issue or skip) or the context paused"},
+		{"expiry-without-batch", "expiry", "a batch expiry is queued only on a path that opened a batch (a context paused for lack of funds has none in flight: a pending expiry keeps it from being started again)"},
 	}
 	for _, r := range rulesOut {
 		if want != nil && !want[r.key] {
@@ -471,6 +475,9 @@ func (c *Check) newBatchRules(prefix string, want map[string]bool) {
 	c.req(nIssue >= 1 && nSkip >= 1 && nPause >= 1, prefix+".nb-roles", unitConstruct(f, "roles"), f.Body.Pos(),
 		fmt.Sprintf("issue paths ×%d, skip paths ×%d, pay-failure paths ×%d", nIssue, nSkip, nPause))
 }
+
+// skipOpened: the path opened a batch (advanced the batch counter in the stored context).
+func skipOpened(n *nbPath) bool { return n.opened > 0 }
 
 // providerListArg: the argument of a call of the batch-start function that is bound to its []AccAddress parameter.
 func (c *Check) providerListArg(bs *Func, call *Event) *Term {
